@@ -120,6 +120,17 @@ func runRT(r *ev.Recorder, c *rtCase) (key, msg string) {
 		if !bytes.Equal(opened, m) {
 			return "open/differs", fmt.Sprintf("%s: Open(Seal(msg)) returned %d bytes, not the message", tag, len(opened))
 		}
+		if len(m) == 0 {
+			// the empty message handed over as a nil slice (an unset variable) is the same message
+			sn, en := d.Sign(nil)
+			if en != nil || sn != sig || !dilithium.Verify(nil, sig, &pk) {
+				return "empty/nil-message-differs", fmt.Sprintf("%s: Sign(nil) == Sign(empty): %v (err %v), Verify(nil, sig) = %v", tag, sn == sig, en, dilithium.Verify(nil, sig, &pk))
+			}
+			if sl, el := d.Seal(nil); el != nil || !bytes.Equal(sl, sealed) || dilithium.Open(sl, &pk) == nil {
+				return "empty/nil-message-differs", fmt.Sprintf("%s: Seal(nil) differs from Seal(empty) or does not open (err %v)", tag, el)
+			}
+			r.Count("empty_message_also_as_nil", 1)
+		}
 		if !bytes.Equal(dilithium.ExtractSignature(sealed), sig[:]) {
 			return "extract/signature", tag + ": ExtractSignature(Seal(msg)) != Sign(msg)"
 		}
@@ -172,7 +183,7 @@ func lenClass(n int) string {
 
 func TestRoundTrips(t *testing.T) {
 	r := ev.New(t, prop, "TestRoundTrips")
-	r.Rule("rapid: 48-byte seeds (uniform, all-zero, all-0xFF, low entropy; one key in 40 comes from dilithium.New() instead and must also sign repeatably) x 4 messages (length 0, 1, SHAKE-rate boundaries 135..137 / 271..273, up to 64 KiB; random and constant content); oracle: Verify(msg,Sign(msg),pk), Open(Seal(msg))==msg, ExtractSignature/ExtractMessage, Seal prefix == Sign, not accepted under another key; a sample of cases is classified by the reference signer's trace; non-trivial = (traced) signature that needed at least one rejection-loop iteration, distinct by (seed,msg)")
+	r.Rule("rapid: 48-byte seeds (uniform, all-zero, all-0xFF, low entropy; one key in 40 comes from dilithium.New() instead and must also sign repeatably) x 4 messages (length 0, 1, SHAKE-rate boundaries 135..137 / 271..273, up to 64 KiB; random and constant content); oracle: Verify(msg,Sign(msg),pk), Open(Seal(msg))==msg (the empty message also handed over as nil), ExtractSignature/ExtractMessage, Seal prefix == Sign, not accepted under another key; a sample of cases is classified by the reference signer's trace; non-trivial = (traced) signature that needed at least one rejection-loop iteration, distinct by (seed,msg)")
 	r.Assume("the number of rejection-loop iterations is taken from the reference signer's trace of the same (seed,msg); C07 establishes that the library walks the same path (byte-identical output)")
 	checks := r.PerShard(r.Pick(5000, 250000))
 	n := 0
